@@ -368,7 +368,35 @@ theorem findD_step [SafePred P] (root : Val) (hroot : SafeKeys P root) (fuel : N
               rename_i s
               simp only [PIdx] at hidx
               split
-              · rename_i hnew; subst hnew; exact absurd hidx SafePred.notNew
+              · -- [new()] (fix C04-a: the search writes nothing; no `KeyError` at the root)
+                rename_i hnew; subst hnew
+                have hre := ihD sp false _ (.at sp) rl slash (SafeRef_at hroot sp) (P_tokenize hfound) P_slash
+                split
+                · rename_i e he; rw [he] at hre; exact hre
+                · rename_i root' cur hcur
+                  rw [hcur] at hre
+                  obtain ⟨hr, hg⟩ := hre
+                  subst hr
+                  split
+                  · exact Post_err rfl
+                  · rename_i cpv hcpv
+                    split
+                    · exact Post_err rfl
+                    · rename_i ni hni
+                      split
+                      · split
+                        · split
+                          · exact ⟨rfl, Good_mk_none (SafeRef_child hg.par _) hg.found⟩
+                          · exact ⟨rfl, Good_mk_none hg.par hg.found⟩
+                        · exact ⟨rfl, Good_mk_none hg.par hg.found⟩
+                      · split
+                        · exact Post_err rfl
+                        · split
+                          · exact Post_err rfl
+                          · split
+                            · exact ⟨rfl, Good_mk_none (SafeRef_child hg.par _) hg.found⟩
+                            · exact Post_err rfl
+                      · exact Post_err rfl
               · split
                 · -- [*]
                   split
